@@ -647,8 +647,17 @@ func (j *judge) judgeReaderBasic(ri int) {
 				}
 			}
 		}
-		// never wrong data
-		if !outOfScope && !isPrefix(D, v.content) {
+		// never wrong data. (A legacy frame the harness tampered with is out
+		// of scope: it has no integrity field, and the Reader resolves
+		// offsets that reach before a legacy block in the previous block
+		// where the reference, for which legacy blocks are independent,
+		// rejects them - garbage in, garbage out either way.)
+		stc := &rs.Srcs[r.Src].Stored
+		tamperedLegacy := v.f.Legacy && (len(stc.Mut) > 0 || stc.Base == "hostile" || stc.Base == "raw")
+		if tamperedLegacy {
+			j.out.Probes.Add("out.of.scope", 1)
+		}
+		if !outOfScope && !tamperedLegacy && !isPrefix(D, v.content) {
 			j.add("wrong-data", op.Op+"-"+contentKey(D, v.content), "R%d op %d: delivered %d bytes that are not a prefix of the reference content (%d bytes): %s", ri, opi, len(D), len(v.content), diffAt(D, v.content))
 		}
 		if clean && !outOfScope {
